@@ -16,7 +16,7 @@ import numpy as np
 from simcore.core import new_outcome, violation, bump
 
 PID = 'C16'
-QUICK_RUNS = 500
+QUICK_RUNS = 2000
 QUICK_SECONDS = 150
 THOROUGH_SECONDS = 900
 CASE_TIMEOUT = 300
